@@ -32,6 +32,8 @@ def judge(name, r, slack=True):
             tag, text = "error-exit-not-cleared", "an error is returned while dest has not been reset at its first element" + (" after this call wrote into it" if o["dirty"] else "")
         elif o["dirty"] and slack and not o["clr_full"]:
             tag, text = "partial-result-left", "an error is returned after this call wrote into dest, and the clearing does not cover all dmax elements"
+        elif o.get("src_null") and slack and not o["clr_full"]:
+            tag, text = "null-source-not-fully-cleared", "the source is null and the error exit does not zero all dmax elements of dest (default null-slack build)"
         if tag:
             out.append(dict(key="C04:%s:%s:ret=%s%s:%s" % (tag, base, o["ret"], ":dirty" if o["dirty"] else "", o["msg"]), rule="D-" + tag,
                             where="%s:%s" % (r["file"], o["line"]), text="%s: %s (returns %s)" % (base, text, o["ret"]), path=o["path"]))
